@@ -321,6 +321,22 @@ def _loaders(mod, frags):
     return out
 
 
+def _stateless(io_mod, base_mod):
+    """decorators and global / nonlocal statements of the loader functions (both must be empty for
+    the model's `pure_load`: a cache decorator or module-level state makes a call depend on the
+    calls before it); the bodies themselves are pinned"""
+    decos, globs = [], []
+    fns = [_func(base_mod, "_load_dataset"), _func(io_mod, "load_from_tsfile_to_dataframe")]
+    fns += [n for n in base_mod.body if isinstance(n, ast.FunctionDef) and n.name.startswith("load_")]
+    for fn in fns:
+        for d in fn.decorator_list:
+            decos.append((fn.name, ast.unparse(d)))
+        for n in ast.walk(fn):
+            if isinstance(n, (ast.Global, ast.Nonlocal)):
+                globs.append((fn.name, ast.unparse(n)))
+    return decos, globs
+
+
 def cstr(s):
     return '"' + s.replace('"', '""') + '"'
 
@@ -338,6 +354,7 @@ def fragments_and_facts(repo):
     lf = _load_dataset(_func(base_mod, "_load_dataset"), frags)
     loaders = _loaders(base_mod, frags)
     facts = {}
+    facts["loader_decorators"], facts["loader_globals"] = _stateless(io_mod, base_mod)
     for d in (wf, pf, af, tf, lf):
         facts.update(d)
     return frags, items, tags, facts, loaders
@@ -379,6 +396,10 @@ def translate(repo):
                % "; ".join(cstr(s) for s in facts["split_order"]))
     out.append("Definition gen_loaders : list (string * string) := [%s]."
                % "; ".join("(%s, %s)" % (cstr(a), cstr(b)) for a, b in loaders))
+    for k, nm in (("loader_decorators", "gen_loader_decorators"),
+                  ("loader_globals", "gen_loader_global_statements")):
+        out.append("Definition %s : list (string * string) := [%s]."
+                   % (nm, "; ".join("(%s, %s)" % (cstr(a), cstr(b)) for a, b in facts[k])))
     out.append("Definition gen_pinned_fragments : list (string * string) := [%s]." % "; ".join(
         "(%s, %s)" % (cstr(n), cstr(hashlib.sha256(frags[n].encode()).hexdigest()[:16]))
         for n in sorted(frags)))
